@@ -64,7 +64,9 @@ A100_NAN = "a>100: Inv_GammaP/Inv_GammaQ returns NaN"
 A100_INV = "a>100: P(Inv_GammaP(p,a),a) differs from p by more than 1e-3"
 ULP_BINOM = 8         # "a few ulp" for n <= 170 (audit: worst 7.3)
 ULP_BINOM_LAWS = 6    # symmetry and Pascal's rule for n <= 170 (audit: worst 4)
-ASSUMPTIONS += ["remaining exclusions (counted as 'excused' in the evidence): the bit-identity of GammaQ with the evaluator the model selects is not "
+ASSUMPTIONS += ["Gamma(x) = +inf is the correctly rounded answer (and is demanded) for x beyond 171.62437695630271, the last double whose Gamma does not "
+                "exceed DBL_MAX, and for 0 < x below about 1/DBL_MAX = 5.56e-309; wherever the reference is finite a finite value within 1e-14 is demanded",
+                "remaining exclusions (counted as 'excused' in the evidence): the bit-identity of GammaQ with the evaluator the model selects is not "
                 "demanded when the decision x < a+1.0 differs between double and exact arithmetic (a+1.0 rounds; the value clauses still apply); "
                 "the inversion clause P(Inv_GammaP(p,a),a) = p is evaluated only where the exact preimage is a normal double",
                 "'a few units in the last place' is 8 ulp for Factorial and Binomial_Coefficient (6 ulp for symmetry and Pascal's rule), 16 ulp for "
@@ -90,6 +92,23 @@ def M(x):
 # ------------------------------------------------------------------------------------------------
 # generator
 # ------------------------------------------------------------------------------------------------
+
+DBL_MAX = 1.7976931348623157e308
+
+
+def gamma_xmax():
+    """the last double whose Gamma is <= DBL_MAX (bisected with mpmath): 171.62437695630271"""
+    lo, hi = 171.0, 172.0
+    while math.nextafter(lo, hi) < hi:
+        mid = 0.5 * (lo + hi)
+        if mid == lo or mid == hi:
+            break
+        if mpmath.gamma(mpf(mid)) <= mpf(DBL_MAX):
+            lo = mid
+        else:
+            hi = mid
+    return lo
+
 
 def _exact_plus1(x):
     """nearest double to x such that x+1.0 is exact"""
@@ -157,6 +176,26 @@ def generate(tier, seed, ctx):
             xs.append(rng.choice([1.0, 2.0]) + rng.uniform(-1, 1) * 10.0 ** rng.uniform(-15, -1))
         else:
             xs.append(10.0 ** rng.uniform(0, 4))
+    # the overflow boundary of Gamma: log-dense towards the largest x with a finite Gamma and just beyond (there +inf IS the
+    # correctly rounded answer); the underflow side x -> 0+ (Gamma ~ 1/x overflows below 1/DBL_MAX = 5.56e-309)
+    xmax = gamma_xmax()
+    edge = [xmax, math.nextafter(xmax, 0), math.nextafter(xmax, 200), 171.6, math.nextafter(171.6, 200), 171.61, 171.62, 171.624, 171.63, 172.0, 180.0, 1e3, 1e300]
+    edge += [xmax - 10.0 ** rng.uniform(-13.5, 0.3) for _ in range(60 if th else 24)] + [xmax + 10.0 ** rng.uniform(-13.5, 0.3) for _ in range(20 if th else 8)]
+    xmin = 1.0 / DBL_MAX
+    edge += [xmin, math.nextafter(xmin, 1), math.nextafter(xmin, 0), 5e-324, 1e-310, 5.5e-309, 5.6e-309, 6e-309, 2.2250738585072014e-308, 1e-307]
+    edge += [xmin * 10.0 ** rng.uniform(-3, 3) for _ in range(20 if th else 8)]
+    for x in edge:
+        R.append("c06.gamma %s" % hx(x))
+        R.append("c06.gammaln %s" % hx(x))
+        if 1.0 < x < 171.0 + 1:                    # the recurrence across the boundary: Gamma(x) = (x-1) Gamma(x-1)
+            x0 = x - 1.0
+            if x0 + 1.0 == x:
+                i = len(R)
+                R.append("c06.gamma %s" % hx(x0)); R.append("c06.gamma %s" % hx(x)); R.append("c06.gammaln %s" % hx(x0)); R.append("c06.gammaln %s" % hx(x))
+                ctx["recur"].append((x0, R[i], R[i + 1], R[i + 2], R[i + 3]))
+    for j in range(40 if th else 14):               # Upper/Lower_Incomplete_Gamma(x, s) with s up to the largest finite Gamma(s)
+        sg = xmax - 10.0 ** rng.uniform(-13, 0.2) if j % 3 else rng.uniform(170.0, xmax)
+        R.append("c06.uplow %s %s" % (hx(max(0.0, sg + rng.uniform(-3, 3) * math.sqrt(sg))), hx(sg)))
     for x in xs:
         R.append("c06.gammaln %s" % hx(x))
         if x < 171.62:
@@ -528,10 +567,15 @@ def _check(op, a, ti, mt, ctx, rq):
             if math.isnan(v) or v < 0:
                 out.append(fail("prop", "Gamma(x) is not a positive number for x>0", repr(v)))
                 return out
-            gref = mpmath.exp(ref)
-            if gref > mpf(1.7e308) or math.isinf(v):
-                if not (math.isinf(v) and ref > 709.7) :
-                    out.append(fail("prop", "Gamma overflows where the reference is finite", "x=%r" % x))
+            gref = mpmath.gamma(xm)
+            # finite reference => finite answer: +inf is accepted only where it is the correctly rounded value,
+            # i.e. the reference exceeds DBL_MAX (by half an ulp: DBL_MAX (1 + 2^-54) rounds to +inf)
+            if gref > mpf(DBL_MAX):
+                if not (math.isinf(v) or (gref < mpf(DBL_MAX) * (1 + mpf(2) ** -53) and v == DBL_MAX)):
+                    out.append(fail("prop", "Gamma is finite where the reference exceeds the largest double", "x=%r got %r" % (x, v)))
+                return out
+            if math.isinf(v):
+                out.append(fail("prop", "Gamma overflows where the reference is finite", "x=%r got inf, reference %s" % (x, mpmath.nstr(gref, 17))))
                 return out
             if not ratio(ctx, "Gamma vs mpmath.gamma", abs(mpf(v) - gref), gref * TOL_LN):
                 out.append(fail("prop", "Gamma disagrees with the reference gamma function", "x=%r got %r ref %s" % (x, v, mpmath.nstr(gref, 20))))
@@ -593,6 +637,9 @@ def _check(op, a, ti, mt, ctx, rq):
         if op == "c06.uplow":
             if P + Q != 1.0:                                     # exact in double arithmetic (P is 1.0 - Q)
                 out.append(fail("prop", "GammaP + GammaQ is not 1", "x=%r a=%r P=%r Q=%r" % (x, s, P, Q)))
+            gs = mpmath.gamma(M(S))
+            if gs <= mpf(DBL_MAX) and not (math.isfinite(G) and ratio(ctx, "Gamma(s) inside Upper/Lower vs mpmath.gamma", abs(mpf(G) - gs) if math.isfinite(G) else 1, gs * TOL_LN)):
+                out.append(fail("prop", "Upper/Lower_Incomplete_Gamma: Gamma(s) overflows or disagrees with the reference although it is finite", "s=%r Gamma(s)=%r reference %s" % (s, G, mpmath.nstr(gs, 17))))
             if math.isfinite(G) and G > 0:
                 if not ratio(ctx, "Upper+Lower=Gamma", abs(Fraction(U) + Fraction(L) - Fraction(G)), 2 * EPS * Fraction(G)):   # 1 ulp
                     out.append(fail("prop", "Upper + Lower incomplete gamma is not Gamma", "x=%r s=%r U=%r L=%r G=%r" % (x, s, U, L, G)))
